@@ -11,6 +11,7 @@
 
 #include "upipe-ts/upipe_ts_sync.h"
 #include "upipe-ts/upipe_ts_check.h"
+#include "upipe-modules/upipe_aggregate.h"
 #include "upipe-ts/upipe_ts_align.h"
 
 #include <stdlib.h>
@@ -417,6 +418,62 @@ static void case_check(struct vh_rng *r, enum kind kind)
         vh_sample("%s size=%u: %d aligned buffers (%zu octets) -> %zu packets", kind_name[kind], c.size, nb, all->n, sink->n);
 }
 
+/* ts_check followed by the aggregator (the usual sender chain): the packets
+ * kept by ts_check alone and those found in the aggregates are the same, every
+ * aggregate is made of whole packets and respects the MTU */
+static void case_check_agg(struct vh_rng *r)
+{
+    struct cfg c = { .kind = K_CHECK, .size = 188, .nsync = 0 };
+    unsigned mtu = 188 * (1 + vh_below(r, 7)) + (vh_chance(r, 1, 2) ? vh_below(r, 188) : 0);
+    struct tsl_sink *alone = tsl_sink_new("alone"), *sink = tsl_sink_new("agg");
+    struct upipe *p1 = make_pipe(&c, alone);
+    struct upipe *p2 = make_pipe(&c, sink);
+    struct upipe_mgr *am = upipe_agg_mgr_alloc();
+    struct upipe *agg = tsl_track(upipe_void_alloc(am, uprobe_use(tsl_probe)));
+    upipe_mgr_release(am);
+    if (!agg) vh_violation("tslab:alloc-failed", "cannot allocate the aggregator");
+    upipe_set_output_size(agg, mtu);
+    upipe_set_output(agg, tsl_sink_upipe(sink));
+    upipe_set_output(p2, agg);
+    int nb = 1 + vh_below(r, 10);
+    uint64_t h = 0xa66 + mtu;
+    vh_tr("ts_check->agg mtu=%u buffers=%d", mtu, nb);
+    for (int i = 0; i < nb; i++) {
+        struct tsl_buf *b = tsl_buf_new();
+        int npk = vh_below(r, 9);
+        for (int j = 0; j < npk; j++) gen_packet(r, b, 188, !vh_chance(r, 1, 12));
+        if (vh_chance(r, 1, 8) && b->n) b->n -= 1 + vh_below(r, 3);
+        h = vh_hash_bytes(h, b->p, b->n);
+        /* the same octets, independently segmented, to both chains */
+        for (int k = 0; k < 2; k++) {
+            struct uref *u = tsl_uref_from_bytes_rnd(r, b->p, b->n);
+            tsl_guard_begin("ts_check->agg", 16 + 4 * (uint64_t)b->n);
+            upipe_input(k ? p2 : p1, u, NULL);
+            tsl_guard_end();
+        }
+    }
+    tsl_guard_begin("ts_check->agg:release", 64);
+    tsl_release(&p1);
+    tsl_release(&p2);
+    tsl_release(&agg);
+    tsl_guard_end();
+    struct tsl_buf *a = tsl_sink_concat(alone), *g = tsl_sink_concat(sink);
+    for (size_t i = 0; i < sink->n; i++) {
+        struct tsl_rec *rec = &sink->recs[i];
+        if (rec->size == 0 || rec->size > mtu || rec->size % 188)
+            vh_violation("c14:ts_check+agg:unit-size", "aggregate %zu has %zu octets (MTU %u, packets of 188)", i, rec->size, mtu);
+        for (size_t o = 0; o < rec->size; o += 188)
+            if (rec->data[o] != 0x47)
+                vh_violation("c14:ts_check+agg:unit-sync", "aggregate %zu: the packet at offset %zu starts with 0x%02x", i, o, rec->data[o]);
+        VH_COUNT("agg.units_checked");
+    }
+    if (a->n != g->n || (a->n && memcmp(a->p, g->p, a->n)))
+        vh_violation("c14:ts_check+agg:octets-lost-or-invented", "ts_check alone outputs %zu octets, the aggregates hold %zu octets (or different ones)", a->n, g->n);
+    VH_COUNT("cases.ts_check+agg");
+    if (sink->n) vh_nontrivial(h);
+    if (vh_want_sample()) vh_sample("ts_check->agg mtu=%u: %d buffers -> %zu packets in %zu aggregates", mtu, nb, alone->n, sink->n);
+}
+
 static void run_case(struct vh_rng *r)
 {
     tsl_case_begin(r);
@@ -428,7 +485,8 @@ static void run_case(struct vh_rng *r)
     if (c < 40) { case_scanner(r, K_SYNC); VH_COUNT("cases.ts_sync"); }
     else if (c < 55) case_sync_hostile(r);
     else if (c < 70) { case_scanner(r, K_ALIGN_SYNC); VH_COUNT("cases.ts_align(sync)"); }
-    else if (c < 85) case_check(r, K_CHECK);
+    else if (c < 78) case_check(r, K_CHECK);
+    else if (c < 85) case_check_agg(r);
     else if (c < 95) case_check(r, K_ALIGN_CHECK);
     else case_check(r, K_ALIGN_IDEM);
     if (tsl_ev.fatal) VH_ADD("probe.fatal_events", tsl_ev.fatal);
